@@ -199,6 +199,67 @@ func c18Validate(c *Ctx) {
 				mc = m
 			}
 		}
+		if mc != nil {
+			// a bound method of a per-iteration reporter object: `rep := &reporter{rule: rules[i]}; rep.rule.RuleFunc(obs, rep.addError)`
+			if mfn, _ := mc.Fn.(*ssa.Function); mfn != nil && strings.HasSuffix(mfn.Name(), "$bound") && len(mc.Bindings) == 1 {
+				meth := unwrapThunk(mfn)
+				recv := stripChange(mc.Bindings[0])
+				// the rule whose RuleFunc is called is a field of that same object
+				holder, _ := fa.X.(*ssa.FieldAddr)
+				if meth != mfn && len(meth.Params) > 0 && holder != nil && stripChange(holder.X) == recv {
+					_, ruleField, _, _ := fieldOf(holder)
+					perIter := false
+					if a, ok := recv.(*ssa.Alloc); ok && inCycle(a.Block()) {
+						perIter = true
+					}
+					tagged, untagged := 0, 0
+					allInstrs(meth, func(in2 ssa.Instruction) {
+						al, ok := in2.(*ssa.Alloc)
+						if !ok || namedOf(al.Type()) != errT {
+							return
+						}
+						okTag := false
+						for _, rf := range *al.Referrers() {
+							fa2, ok := rf.(*ssa.FieldAddr)
+							if !ok {
+								continue
+							}
+							if _, n, _, _ := fieldOf(fa2); n != "Rule" {
+								continue
+							}
+							for _, rr := range *fa2.Referrers() {
+								st, ok := rr.(*ssa.Store)
+								if !ok || st.Addr != ssa.Value(fa2) {
+									continue
+								}
+								// receiver.<ruleField>.Name
+								if ld2, ok := stripConv(st.Val).(*ssa.UnOp); ok {
+									if nm, ok := ld2.X.(*ssa.FieldAddr); ok {
+										if _, n2, _, _ := fieldOf(nm); n2 == "Name" {
+											if h2, ok := nm.X.(*ssa.FieldAddr); ok && stripChange(h2.X) == ssa.Value(meth.Params[0]) {
+												if _, f2, _, _ := fieldOf(h2); f2 == ruleField {
+													okTag = true
+												}
+											}
+										}
+									}
+								}
+							}
+						}
+						if okTag {
+							tagged++
+						} else {
+							untagged++
+						}
+					})
+					if tagged > 0 && untagged == 0 && perIter {
+						nAlloc++
+						r3.OK("RuleFunc call", "addError is a method of a per-iteration reporter object and tags every error with the Name of the rule stored in that object, whose RuleFunc is the one called")
+						return
+					}
+				}
+			}
+		}
 		if mc == nil {
 			// the closure may come from a constructor: adder(rule.Name, &errs) returning a closure that tags with its parameter
 			for _, a := range ci.Common().Args {
